@@ -1,21 +1,19 @@
-#!/usr/bin/env python3
+#!/venv/bin/python
 """Regenerates MANIFEST.json from the table below (kept here so the manifest is always valid)."""
 import json, os
 ROOT = os.path.dirname(os.path.dirname(os.path.abspath(__file__)))
 TB = ("Trusted: Lean 4.33 kernel + axioms propext/Classical.choice/Quot.sound only (audited each run); the Gen tabulator and the "
       "differential harness; NumPy/npstructures/gzip/Python runtime semantics are modelled, not verified. ")
-CLAIMED = {
- "C06": dict(
-   text="Lean 4 theorems for all strings/all alphabets: encode succeeds iff every byte is accepted, decode∘encode = upper-casing, "
-        "ragged shape kept, re-targeting and change_encoding never change the text (retarget_sound for every pair of duplicate-free "
-        "alphabets). The code's 256-entry tables of all ten predefined alphabet encodings are re-extracted from /repo on every run "
-        "into Gen/C06.lean and the whole-table obligation is re-checked by the kernel (decide +kernel). Correspondence: impl vs Lean "
-        "model vs Lean spec vs Python oracle on every byte x encoding, strings with a foreign byte at every position, every ordered "
-        "pair of alphabets.",
-   note=TB + "Element-wise application of the table to arrays (NumPy fancy indexing) and ragged shape handling (npstructures) are modelled as omap/unflatten and exercised by the correspondence.",
-   technique="Lean 4 proof over generated tables (decide +kernel) + lifting lemmas; differential correspondence with the implementation",
-   design="§6 C06"),
-}
+import sys, importlib, warnings
+warnings.filterwarnings("ignore")
+sys.path.insert(0, ROOT)
+REG = json.load(open(os.path.join(ROOT, "registry.json")))
+CLAIMED = {}
+for pid in REG["claimed"]:
+    mod = importlib.import_module(f"harness.props.{pid.lower()}")
+    mm = mod.MANIFEST
+    CLAIMED[pid] = dict(text=mm["text"], note=TB + mm.get("note", ""), technique=mm["technique"], design=mm.get("design", f"§6 {pid}"))
+NA = REG.get("not_applicable", {})
 PENDING_REASON = "check not built yet in this round (planned as Lean model + correspondence, DESIGN §6); not claimed until it runs green"
 ALL = [f"C{i:02d}" for i in range(1, 21)]
 m = {
@@ -38,6 +36,6 @@ for pid in ALL:
             "level_claimed": {"category": "proof", "text": c["text"], "design_ref": c["design"]},
             "level_note": c["note"], "technique": c["technique"]})
     else:
-        m["not_applicable"].append({"property_id": pid, "reason": PENDING_REASON})
+        m["not_applicable"].append({"property_id": pid, "reason": NA.get(pid, PENDING_REASON)})
 json.dump(m, open(os.path.join(ROOT, "MANIFEST.json"), "w"), indent=1, ensure_ascii=False)
 print("claimed", sorted(CLAIMED))
